@@ -15,6 +15,7 @@ CONSTANTS
  MaxExtra <- MC_MaxExtra
  SeedChoices <- MC_SeedChoices
  Faults <- MC_Faults
+ SeedFaults <- MC_SeedFaults
  FixedAlphas <- MC_FixedAlphas
  KeyChoices <- MC_KeyChoices
  CoeffChoices <- MC_CoeffChoices
@@ -25,4 +26,4 @@ CONSTANTS
 INIT Init
 NEXT Next
 CHECK_DEADLOCK FALSE
-INVARIANTS InvRegen InvParams InvHonest InvFaulty InvFaultyShare Emit
+INVARIANTS InvRegen InvParams InvHonest InvFaulty InvFaultyShare InvFew Emit
